@@ -100,12 +100,13 @@ def main(tier):
         rep.harness_error("no reachability witness (vacuous)")
     for s in total.samples:
         rep.sample(s)
-    from vf.checks import c03w
+    from vf.checks import c03w, c03s
     wi = c03w.run(rep, tier)
+    sl = c03s.run(rep, tier)
     rep.coverage.update({
         "states": total.configs,
-        "transitions": total.queries + wi.get("queries", 0),
-        "traces_validated_against_impl": replayed,
+        "transitions": total.queries + wi.get("queries", 0) + sl.get("queries", 0),
+        "traces_validated_against_impl": replayed + sl.get("replayed", 0),
         "exhaustive": tier == "thorough",
         "configurations": total.configs, "functions_encoded": total.functions,
         "ir_instructions_executed": total.instrs, "queries": total.queries, "unsat": total.unsat,
@@ -113,7 +114,7 @@ def main(tier):
         "negative_controls_fired": "%d/%d" % (total.controls_fired, total.controls_total),
         "not_encoded": total.not_encoded[:20], "not_encoded_count": len(total.not_encoded),
         "solver_s": round(total.solver_s, 1), "compile_s": round(total.compile_s, 1),
-        "candidates_classified": seen, "write_inference": wi,
+        "candidates_classified": seen, "write_inference": wi, "structure_level": sl,
         "bounds": {"buffer_length": "0..%d bytes" % kernel_check.NMAX, "initial_contents": "all", "value": "every value of the full-width argument type (int64_t and uint64_t overloads for UInt/Int; the enum's own type; the view's ValueType for Bcd)",
                    "bcd_write_width": "<= %d bits (division-by-10 chains beyond that do not bit-blast in time); CouldWriteValue for all widths" % bcd_max,
                    "outside": "Bcd writes wider than the bound; [requires] on leaf kernels (covered at structure level in C01)"},
